@@ -227,9 +227,25 @@ func (b *BackendConfiguration) GetCompatBackend() *Backend {
 	return b.storage.GetCompatBackend()
 }
 
+// hasDotSegments checks if the (decoded) path of the URL contains "." or ".."
+// segments. Web servers resolve these before routing a request, so such a URL
+// can be served by a different backend than the one its prefix matches.
+func hasDotSegments(u *url.URL) bool {
+	for _, segment := range strings.Split(u.Path, "/") {
+		if segment == "." || segment == ".." {
+			return true
+		}
+	}
+	return false
+}
+
 func (b *BackendConfiguration) GetBackend(u *url.URL) *Backend {
 	if strings.Contains(u.Host, ":") && hasStandardPort(u) {
 		u.Host = u.Hostname()
+	}
+
+	if hasDotSegments(u) {
+		return nil
 	}
 
 	return b.storage.GetBackend(u)
